@@ -98,6 +98,7 @@ class SimFS(object):
         self.nopens = 0
         self.ntemp = 0
         self.inside_get_file = 0
+        self.fds = []
 
     # -- builtins.open replacement
     def open(self, path, mode='r', *a, **k):
@@ -158,6 +159,42 @@ class SimFS(object):
         class _Os(object):
             path = _Path
             sep = _os.sep
+
+            O_RDONLY, O_WRONLY, O_RDWR = _os.O_RDONLY, _os.O_WRONLY, _os.O_RDWR
+            O_CREAT, O_EXCL, O_TRUNC, O_APPEND = _os.O_CREAT, _os.O_EXCL, _os.O_TRUNC, _os.O_APPEND
+            error = OSError
+
+            @staticmethod
+            def open(p, flags, mode=0o777):
+                fs.sim.yield_('fs.os_open')
+                p = str(p)
+                fs.nopens += 1
+                if fs.fail_open_at is not None and fs.nopens == fs.fail_open_at:
+                    fs.sim.bump('fs.open_error')
+                    raise OSError(fs.fail_errno, _os.strerror(fs.fail_errno), p)
+                exists = p in fs.files
+                if exists and (flags & _os.O_CREAT) and (flags & _os.O_EXCL):
+                    fs.sim.bump('probe.fs_exclusive_create_collision')
+                    raise FileExistsError(errno.EEXIST, 'File exists', p)
+                if not exists:
+                    if not flags & _os.O_CREAT:
+                        raise FileNotFoundError(errno.ENOENT, 'No such file or directory', p)
+                    fs.history.append(('create', p, None))
+                    fs.files[p] = bytearray()
+                elif flags & _os.O_TRUNC:
+                    fs.history.append(('truncate-open', p, len(fs.files[p])))
+                    fs.files[p] = bytearray()
+                fs.fds.append(p)
+                return 5000 + len(fs.fds) - 1
+
+            @staticmethod
+            def fdopen(fd, mode='r', *a, **k):
+                p = fs.fds[fd - 5000]
+                return SimFile(fs, p, fs.files[p], mode.replace('w', 'r+') if 'w' in mode else mode)
+
+            @staticmethod
+            def close(fd):
+                pass
 
             @staticmethod
             def listdir(p):
